@@ -4,18 +4,19 @@
    node's observable state (stable, head, unconfirmed tree with confirm counts, account balances at the head,
    pool content, replay-guard answers) before and after the call. *)
 EXTENDS BlockAccept, TraceBase
-tvars == <<scen, chain, l>>
-TReset == Ev("reset") /\ scen' = E.scen /\ chain' = {}
+tvars == <<scen, fam, chain, l>>
+TReset == Ev("reset") /\ scen' = E.scen /\ fam' = E.fam /\ chain' = {}
 TOffer == /\ Ev("Offer")
           /\ LET m == E.a[1]  r == E.a[2] IN
              \* added iff valid (and new); a block whose only oddity is a re-encoded header signature or junk among its confirms
              \* violates no condition the property names, but a stricter node may refuse it: either outcome, a refusal changing nothing
-             /\ (m \in {"sig_reencoded", "confirm_garbage"} /\ Accepts(m, r)) \/ E.ok = Accepts(m, r)
+             \* (likewise a sub-transaction that outlives bt but not its own box)
+             /\ (m \in {"sig_reencoded", "confirm_garbage"} \cup ZOpt /\ Accepts(m, r)) \/ E.ok = Accepts(m, r)
              /\ (~E.ok => E.pre = E.post)                     \* a refused block leaves everything exactly as it was
              /\ (E.ok => E.stored /\ E.pre # E.post)
              /\ (E.ok /\ m = "confirm_garbage" => E.nconf = 0) \* junk confirms are not stored with a valid block
              /\ chain' = (IF E.ok THEN chain \cup {HashOf(m)} ELSE chain)
-             /\ UNCHANGED scen
+             /\ UNCHANGED <<scen, fam>>
 TraceNext == TReset \/ TOffer
-TraceSpec == l = 1 /\ scen = 1 /\ chain = {} /\ [][TraceNext]_tvars
+TraceSpec == l = 1 /\ scen = 1 /\ fam = "hdr" /\ chain = {} /\ [][TraceNext]_tvars
 ====
